@@ -87,6 +87,16 @@ theorem mstep_effect (S : PSt) (i : Pid) : Effect S (mstep S i) i := by
       all_goals first | exact effect_setComp_setCtl S i d n _ | exact effect_setComp S i d n
   · exact effect_refl S i
 
+theorem mintr_effect (S : PSt) (i : Pid) : Effect S (mintr S i) i := by
+  unfold mintr
+  repeat' split
+  all_goals first | exact effect_setCtl S i _ | exact effect_refl S i
+
+theorem mstepE_effect (S : PSt) (e : MEv) : ∃ i, Effect S (mstepE S e) i := by
+  cases e with
+  | call i => exact ⟨i, mstep_effect S i⟩
+  | intr i => exact ⟨i, mintr_effect S i⟩
+
 /-- Projection: each stack's component of a path run is a run of the single-directory model. -/
 theorem mrun_comp_is_run (S : PSt) (sched : List Pid) (d : Dir) :
     ∃ sd, (mrun S sched).comp d = run (S.comp d) sd := by
@@ -227,6 +237,70 @@ theorem held_mstep (S : PSt) (i p : Pid) (hnd : (S.path p).Nodup) (h : Held S p)
     | fin o => trivial
 
 theorem mstep_path (S : PSt) (i : Pid) : (mstep S i).path = S.path := (mstep_effect S i).path
+
+theorem mrunE_comp_is_run (S : PSt) (evs : List MEv) (d : Dir) :
+    ∃ sd, (mrunE S evs).comp d = run (S.comp d) sd := by
+  induction evs generalizing S with
+  | nil => exact ⟨[], rfl⟩
+  | cons e r ih =>
+    obtain ⟨sd, hsd⟩ := ih (mstepE S e)
+    obtain ⟨i, he⟩ := mstepE_effect S e
+    obtain ⟨d0, n, hc⟩ := he.comp
+    by_cases h : d = d0
+    · subst h
+      refine ⟨List.replicate n i ++ sd, ?_⟩
+      rw [mrunE_cons, hsd, hc d, run_append]; simp
+    · refine ⟨sd, ?_⟩
+      rw [mrunE_cons, hsd, hc d]; simp [h]
+
+theorem held_mintr (S : PSt) (i p : Pid) (h : Held S p) : Held (mintr S i) p := by
+  by_cases hpi : p = i
+  · subst hpi
+    unfold mintr
+    cases hc : S.ctl p with
+    | body n reg => simp only []; split <;> simp [Held]
+    | acq k => simpa [hc] using h
+    | unw a b c => simpa [hc] using h
+    | rel a b c e => simpa [hc] using h
+    | fin o => simpa [hc] using h
+  · have e := mintr_effect S i
+    unfold Held
+    rw [e.ctlOther p hpi, e.path]
+    unfold Held at h
+    cases hc : S.ctl p with
+    | acq k =>
+      simp only [hc] at h ⊢
+      exact ⟨h.1, fun j d hj hjd => by rw [e.pc_other p hpi d]; exact h.2 j d hj hjd⟩
+    | body n reg =>
+      simp only [hc] at h ⊢
+      exact ⟨h.1, fun j d hj hjd => by rw [e.pc_other p hpi d]; exact h.2 j d hj hjd⟩
+    | unw j k e => trivial
+    | rel j n more o => trivial
+    | fin o => trivial
+
+theorem mstepE_path (S : PSt) (e : MEv) : (mstepE S e).path = S.path := by
+  obtain ⟨i, he⟩ := mstepE_effect S e; exact he.path
+
+theorem mrunE_path (S : PSt) (evs : List MEv) : (mrunE S evs).path = S.path := by
+  induction evs generalizing S with
+  | nil => rfl
+  | cons e r ih => rw [mrunE_cons, ih, mstepE_path]
+
+theorem held_mrunE (S : PSt) (evs : List MEv) (hnd : ∀ p, (S.path p).Nodup) (h : ∀ p, Held S p) :
+    ∀ p, Held (mrunE S evs) p := by
+  induction evs generalizing S with
+  | nil => exact h
+  | cons e r ih =>
+    rw [mrunE_cons]
+    refine ih (mstepE S e) (by rw [mstepE_path]; exact hnd) (fun p => ?_)
+    cases e with
+    | call i => exact held_mstep S i p (hnd p) (h p)
+    | intr i => exact held_mintr S i p (h p)
+
+theorem inv_mrunE (S : PSt) (evs : List MEv) (h : ∀ d, Inv (S.comp d)) : ∀ d, Inv ((mrunE S evs).comp d) := by
+  intro d
+  obtain ⟨sd, hsd⟩ := mrunE_comp_is_run S evs d
+  rw [hsd]; exact inv_run _ _ (h d)
 
 theorem mrun_path (S : PSt) (sched : List Pid) : (mrun S sched).path = S.path := by
   induction sched generalizing S with
